@@ -17,6 +17,7 @@ IDENT_OF = {   # node kind -> kind of the node that carries its own identifier
     "ParamAssignment": "ParameterIdentifier", "NetDeclAssignment": "NetIdentifier", "VariableDeclAssignment": "VariableIdentifier",
     "HierarchicalInstance": "InstanceIdentifier", "FunctionDeclaration": "FunctionIdentifier", "TaskDeclaration": "TaskIdentifier",
     "GenerateBlock": "GenerateBlockIdentifier", "TypeDeclaration": "TypeIdentifier",
+    "ModuleInstantiation": "ModuleIdentifier", "NInputGateInstance": "InstanceIdentifier",
 }
 
 
